@@ -404,14 +404,9 @@ func (m *Manager) writeSnapshot(w io.Writer) error {
 		for _, id := range ids {
 			meta := version.ValueLogs[id]
 			metaCopy := meta
-			if meta.Valid {
-				if err := writeEdit(w, Edit{Type: EditUpdateValueLog, ValueLog: &metaCopy}); err != nil {
-					return err
-				}
-			} else {
-				if err := writeEdit(w, Edit{Type: EditDeleteValueLog, ValueLog: &metaCopy}); err != nil {
-					return err
-				}
+			// EditUpdateValueLog carries Offset and Valid, so invalid entries keep their offset too.
+			if err := writeEdit(w, Edit{Type: EditUpdateValueLog, ValueLog: &metaCopy}); err != nil {
+				return err
 			}
 		}
 	}
